@@ -1,4 +1,5 @@
 #include "vf.h"
+#include <limits>
 #include "romea_core_common/containers/grid/GridIndexMapping.hpp"
 using namespace romea::core;
 
@@ -35,8 +36,11 @@ static void interval_entry(const char * tag)
   }
   auto c = m.computeCellCenterPosition(idx);
   for (size_t d = 0; d < D; ++d) {
+    // a point exactly on a cell border is at half a resolution from both centres; the centre is computed with two
+    // roundings, so a few ulps of slack are part of the statement for non-dyadic resolutions (0.1, 0.001)
     S half = res / 2;
-    vf_check((p[d] - c[d] <= half) & (c[d] - p[d] <= half), "within-half-res");
+    S slack = 8 * std::numeric_limits<S>::epsilon() * ((p[d] < 0 ? -p[d] : p[d]) + (c[d] < 0 ? -c[d] : c[d]) + res);
+    vf_check((p[d] - c[d] <= half + slack) & (c[d] - p[d] <= half + slack), "within-half-res");
   }
   vf_reach(tag);
 }
